@@ -42,6 +42,42 @@ theorem unbound_never_folded (B : Builtins) (ids : List Str) (code : List Instr)
     exact ⟨n, hn, by simp [hb]⟩
   simp [this]
 
+/-- A call whose code names a clock function anywhere (also as a method name, also inside a code block
+    operand at any depth) is never evaluated by the compiler. -/
+theorem clock_name_never_folded (B : Builtins) (ids : List Str) (code : List Instr)
+    (hc : namesClock code = true) :
+    checkForConst B ids code = .code code := by
+  unfold checkForConst
+  simp [hc]
+
+/-- Where the scan looks: pushing the name directly … -/
+theorem namesClock_push_ident (n : Str) (rest : List Instr)
+    (hc : clockFunctions.any (·.toList = n) = true) :
+    namesClock (.push (.ident n) :: rest) = true := by
+  simp [namesClock, namesClockI, namesClockV, hc]
+
+/-- … anywhere in the instruction sequence … -/
+theorem namesClock_append (a b : List Instr) :
+    namesClock (a ++ b) = (namesClock a || namesClock b) := by
+  induction a with
+  | nil => simp [namesClock]
+  | cons i is ih => simp [namesClock, ih, Bool.or_assoc]
+
+/-- … or inside a code block operand (the lazily evaluated argument of a call). -/
+theorem namesClock_block (c rest : List Instr) (hc : namesClock c = true) :
+    namesClock (.push (.code c) :: rest) = true := by
+  simp [namesClock, namesClockI, namesClockV, hc]
+
+/-- `'abc'.now()`: the clock reached through a method name stays a run-time call. -/
+theorem now_method_stays_a_call (B : Builtins) (ids : List Str) (recv : List Instr) :
+    checkForConst B ids (recv ++ [.push (.ident "now".toList), .access, .call 0]) =
+      .code (recv ++ [.push (.ident "now".toList), .access, .call 0]) := by
+  apply clock_name_never_folded
+  rw [namesClock_append]
+  have : namesClock [.push (.ident "now".toList), .access, .call 0] = true :=
+    namesClock_push_ident _ _ (by decide)
+  rw [this, Bool.or_true]
+
 /-- `now()` is compiled to a run-time call, whatever the built-in table is. -/
 theorem now_stays_a_call (B : Builtins) (s1 s2 s3 : Span) :
     compile B (.member s1 (.ident s2 "now".toList) [.call s3 []]) =
